@@ -373,3 +373,112 @@ Print Assumptions C02_src_allof.
 Print Assumptions C02_src_anyof.
 Print Assumptions C02_src_oneof.
 Print Assumptions C02_src_notfield.
+
+(* ---- Enum fields over enum classes WITH A MIX-IN TYPE (class Tone(str, enum.Enum), enum.IntEnum) ----------------
+   In the universe above an enum member is never a str / an int.  Fields/EnumMixin.v is the universe in which the
+   mix-in is visible (isinstance, ==, hash, lookup by name), with the code-shaped model mx_set of Enum.__set__, the
+   documented rule mx_doc (accepted: a declared member OBJECT, or a plain str naming a declared member; stored: the
+   member) and the domain mx_safe (free of the == confusion and of the name confusion).  For EVERY class, mix-in,
+   declared subset of its members and candidate in that domain the code decides as documented and every rejection is
+   a TypeError/ValueError; outside it each confusion is refuted by a constructed witness (listed findings
+   C02-mixin-...).  Gen/EnumMixinSrc.v is re-generated from typedpy/fields/enum.py on every run
+   (harness/genmods/py2v_enum_mixin.py): what Enum.__set__ does NOW over that universe is mx_set. *)
+From TP Require Import Fields.EnumMixin Fields.EnumMixinProofs Gen.EnumMixinSrc Fields.EnumMixinSrcProofs.
+
+Theorem C02_enum_mixin_agree : forall E decl x,
+    is_cand x = true -> decl_in_class E decl = true -> mx_safe E decl x = true ->
+    mx_agree (mx_set E decl x) (mx_doc E decl x) = true.
+Proof. exact mx_agree_safe. Qed.
+
+Theorem C02_enum_mixin_error_class : forall E decl x e,
+    is_cand x = true -> decl_in_class E decl = true -> mx_safe E decl x = true ->
+    mx_set E decl x = Raise e -> is_te_ve e = true.
+Proof. exact mx_error_class. Qed.
+
+Theorem C02_src_enum_mixin : forall re E decl x,
+    is_cand x = true -> Enum__set_mx re (enum_self E decl) x = mx_set E decl x.
+Proof. exact generated_enum_set_mx. Qed.
+
+Theorem C02_enum_mixin_refuted_value_keyerror :
+  mx_set Tone (ec_members Tone) (XPlain (PStr (s2p "low"))) = Raise KeyError /\
+  mx_doc Tone (ec_members Tone) (XPlain (PStr (s2p "low"))) = None.
+Proof. exact mx_refuted_value_keyerror. Qed.
+
+Theorem C02_enum_mixin_refuted_undeclared_member :
+  let decl := [(s2p "LOW", PStr (s2p "low")); (s2p "MID", PStr (s2p "mid"))] in
+  let high := XMem (s2p "Tone") MxStr (s2p "HIGH") (PStr (s2p "LOW")) in
+  mx_set Tone decl high = Ok high /\ mx_doc Tone decl high = None.
+Proof. exact mx_refuted_undeclared_member. Qed.
+
+Theorem C02_enum_mixin_refuted_raw_int :
+  mx_set Level (ec_members Level) (XPlain (PNum (NInt 1))) = Ok (XPlain (PNum (NInt 1))) /\
+  mx_doc Level (ec_members Level) (XPlain (PNum (NInt 1))) = None.
+Proof. exact mx_refuted_raw_int. Qed.
+
+Print Assumptions C02_enum_mixin_agree.
+Print Assumptions C02_enum_mixin_error_class.
+Print Assumptions C02_src_enum_mixin.
+Print Assumptions C02_enum_mixin_refuted_value_keyerror.
+Print Assumptions C02_enum_mixin_refuted_undeclared_member.
+Print Assumptions C02_enum_mixin_refuted_raw_int.
+
+Example C02_enum_mixin_nonvacuous :
+  let decl := [(s2p "LOW", PStr (s2p "low")); (s2p "MID", PStr (s2p "mid"))] in
+  mx_safe Tone decl (XMem (s2p "Tone") MxStr (s2p "MID") (PStr (s2p "mid"))) = true /\
+  mx_set Tone decl (XMem (s2p "Tone") MxStr (s2p "MID") (PStr (s2p "mid")))
+    = Ok (XMem (s2p "Tone") MxStr (s2p "MID") (PStr (s2p "mid"))) /\
+  mx_safe Tone decl (XPlain (PStr (s2p "MID"))) = true /\
+  mx_set Tone decl (XPlain (PStr (s2p "MID"))) = Ok (XMem (s2p "Tone") MxStr (s2p "MID") (PStr (s2p "mid"))) /\
+  mx_safe Tone decl (XPlain (PStr (s2p "HIGH"))) = true /\
+  mx_set Tone decl (XPlain (PStr (s2p "HIGH"))) = Raise ValueError.
+Proof. exact mx_safe_nonvacuous. Qed.
+
+(* ---- fields over ARBITRARY classes: Field[Foo], Array[Foo], Map[String, Foo], AnyOf[Integer, Foo] --------------------
+   FieldMeta.__getitem__ caches the implicit wrapper of a class in a process-wide registry, so what a declaration
+   gets depends on the HISTORY of earlier declarations.  Fields/ClassField.v models registry, wrapper and history with
+   the registry key as a parameter; by induction over the history (invariant: every cached wrapper wraps the class
+   its entry was created for) a declaration accepts exactly the instances of ITS class, stores the value given and
+   rejects with TypeError -- for every history, class and value, provided the key separates class objects.  The key
+   the source uses NOW is generated (Gen/RegistryKey.v, harness/genmods/registry_key.py); a key computed from the
+   qualified name and the class object under a metaclass with __eq__/__hash__ are refuted by constructed histories. *)
+From TP Require Import Fields.ClassField Fields.ClassFieldProofs Gen.RegistryKey Fields.ClassFieldToday.
+
+Theorem C02_classfield_agree : forall rk hist c v,
+    rk_safe rk (c :: hist) = true -> cf_agree (cf_set rk hist c v) (cf_doc c v) = true.
+Proof. exact cf_agree_safe. Qed.
+
+Theorem C02_classfield_own_wrapper : forall rk hist c,
+    rk_safe rk (c :: hist) = true -> k_id (snd (reg_getitem rk (declare_all rk [] hist) c)) = k_id c.
+Proof. exact cf_wrapper_of_own_class. Qed.
+
+Theorem C02_src_classfield_today : forall hist c v,
+    no_meta_eq (c :: hist) = true -> cf_agree (cf_set registry_key hist c v) (cf_doc c v) = true.
+Proof. exact cf_agree_today. Qed.
+
+Theorem C02_src_classfield_wrapper_facts :
+  wrapper_ty_is_declared_class = true /\ wrapper_validates_isinstance = true.
+Proof. exact wrapper_facts_today. Qed.
+
+Theorem C02_classfield_refuted_qualname_key :
+  let rk := RK_attrs [s2p "__module__"; s2p "__qualname__"] in
+  cf_set rk [V2] V3 (CInst V3 0) = Raise TypeError /\ cf_doc V3 (CInst V3 0) = Some (CInst V3 0) /\
+  cf_set rk [V2] V3 (CInst V2 0) = Ok (CInst V2 0) /\ cf_doc V3 (CInst V2 0) = None.
+Proof. exact cf_refuted_qualname_key. Qed.
+
+Theorem C02_classfield_refuted_metaclass_eq :
+  cf_set RK_object [M1] M2 (CInst M2 0) = Raise TypeError /\ cf_doc M2 (CInst M2 0) = Some (CInst M2 0).
+Proof. exact cf_refuted_metaclass_eq. Qed.
+
+Print Assumptions C02_classfield_agree.
+Print Assumptions C02_classfield_own_wrapper.
+Print Assumptions C02_src_classfield_today.
+Print Assumptions C02_src_classfield_wrapper_facts.
+Print Assumptions C02_classfield_refuted_qualname_key.
+Print Assumptions C02_classfield_refuted_metaclass_eq.
+
+Example C02_classfield_nonvacuous :
+  rk_safe RK_object [V3; V2] = true /\
+  cf_set RK_object [V2] V3 (CInst V3 0) = Ok (CInst V3 0) /\
+  cf_set RK_object [V2] V3 (CInst V2 0) = Raise TypeError /\
+  cf_set RK_object [V2; V3] V2 (CInst V2 5) = Ok (CInst V2 5).
+Proof. exact cf_safe_nonvacuous. Qed.
